@@ -7,6 +7,8 @@ CONSTANTS
   StaleTimeout = FALSE
   StaleLists = FALSE
   ThresholdBefore = TRUE
+  ProbeCheckUpdated = TRUE
+  QuotaErrors = FALSE
   InitStates = {"Queued"}
   B <- BCrash
   MaxHist = 0
